@@ -497,3 +497,5 @@ def run(tier, seed):
 
 
 RULE += (' The same value queries and tag queries on a problem loaded back from a store (ProblemViewDataStore) whose parameter and cost names are in reverse lexical order (histories of 1 and 2 individuals, all criteria).')
+
+RULE += (' Beyond small: indicators on fronts of 32..513 (thorough 1025) points with an outlier first / last; loaded problems whose individuals are of different classes.')
